@@ -10,6 +10,8 @@ from pyvc.engine import RaiseSig, Unsupported, bytes_num
 from pyvc.values import (B, I, NONE, Obj, V, VBool, VBytes, VClass, VExc, VFunc, VInt, VNone,
                          VOpaque, VRef, VStr, VTuple, fresh_name)
 
+from .common import inst
+
 MOD = 'ZODB.serialize'
 ASSUMPTIONS = [
     'A-NOLOAD: PersistentUnpickler(None, callback, file).noload() x2 calls the callback once per persistent '
@@ -136,3 +138,83 @@ class GetRefs(RefsSpec):
 
 SPECS = [Referencesf, GetRefs]
 INLINE = []
+
+
+# ======================================================================================
+prims.EXT_CLASSES.add('persistent.wref.WeakRef')
+
+
+class LoadPersistentWeakref(Spec):
+    """ObjectReader.load_persistent_weakref: the loaded weak reference names the stored oid and resolves in the
+    connection of the database the reference names - the reader's own connection only when the reference names no
+    database; when the named database is not configured the reference is left WITHOUT a data manager (a dead
+    reference), never bound to some other database (C14: every reference leads to the object with the same id)."""
+    func = MOD + ':ObjectReader.load_persistent_weakref'
+    props = ('C14',)
+    cases = ('same-database', 'other-database')
+
+    def setup(self, c, case=None):
+        conn = c.fresh_opaque('conn')
+        me = inst(c, MOD + ':ObjectReader', _conn=conn, _cache=c.fresh_opaque('cache'),
+                  _factory=c.fresh_opaque('factory'))
+        c.ghost['lw'] = {'conn': conn, 'made': []}
+        a = {'self': me, 'oid': c.fresh_bytes(8, 'oid')}
+        a['database_name'] = NONE if case == 'same-database' else c.fresh_opaque('database_name')
+        return a
+
+    def hooks(self, c):
+        g = lambda cc: cc.ghost['lw']
+
+        def new(cc, interp, args, kwargs, node):
+            r = cc.new_obj('inst', None, {}, {'name': 'weakref'})
+            g(cc)['made'].append(r)
+            return r
+
+        def ometh(cc, v, name, args, kwargs, node):
+            if v.tag == 'conn' and name == 'get_connection':
+                if cc.choose([True, True], 'database-configured') == 1:
+                    cc.event('database-missing')
+                    raise RaiseSig(VExc('builtins:KeyError'))
+                oc = cc.fresh_opaque('other_conn')
+                cc.assume(oc.t != g(cc)['conn'].t)
+                cc.event('other-connection', args[0], oc)
+                return oc
+            return None
+        return {'prim:persistent.wref.WeakRef.__new__': new, 'opaque_method': ometh,
+                'opaque_is_none': lambda cc, v: False}
+
+    def modifies(self, c, E):
+        return set()
+
+    def outcomes(self, c, E):
+        g = c.ghost['lw']
+
+        def post(c, E, r):
+            ok = isinstance(r, VRef) and len(g['made']) == 1 and r.id == g['made'][0].id
+            out = [('returns-the-new-weak-reference', ok)]
+            if not ok:
+                return out
+            f = c.obj(r).f
+            oid = f.get('oid')
+            out.append(('names-the-stored-oid', bytes_num(c, oid) == bytes_num(c, E['oid'])
+                        if isinstance(oid, VBytes) and oid.conc_len() == 8 else False))
+            dm = f.get('dm')
+            if isinstance(E['database_name'], VNone):
+                out.append(('same-database.resolves-in-the-readers-connection',
+                            isinstance(dm, VOpaque) and dm.tag == 'conn'))
+                out.append(('same-database.names-no-database', 'database_name' not in f))
+            else:
+                dn = f.get('database_name')
+                out.append(('other-database.name-kept', isinstance(dn, VOpaque) and dn is E['database_name']))
+                found = [e for e in c.events if e[0] == 'other-connection']
+                if found:
+                    out.append(('other-database.resolves-in-that-databases-connection',
+                                isinstance(dm, VOpaque) and dm is found[0][2] and
+                                found[0][1] is E['database_name']))
+                else:
+                    out.append(('missing-database.dead-reference-never-bound-to-another-database', dm is None))
+            return out
+        return [Outcome('ok', post=post, result=lambda cc, E: cc.fresh_opaque('weakref'))]
+
+
+SPECS.append(LoadPersistentWeakref)
